@@ -41,19 +41,20 @@ func (k Kind) String() string {
 // Scenario is a fully parameterised session that can be instantiated any number of times
 // (reference run, explored run, twin runs) with identical inputs.
 type Scenario struct {
-	Kind   Kind
-	Proto  Proto
-	N, T   int
-	IDs    []party.ID // all shareholders
-	Parts  []party.ID // participants of this session (signers for sign kinds)
-	Msg    []byte
-	Mat    *Material                        // input material (refresh / sign kinds)
-	Pre    map[party.ID]*ecdsa.PreSignature // presign-online
-	Y      ref.Pt                           // expected group key (refresh / sign kinds)
-	HasY   bool
-	SID    []byte
-	Name   string
-	Shapes []ToyShape // KToy: what rounds 2.. expect
+	Kind        Kind
+	Proto       Proto
+	N, T        int
+	IDs         []party.ID // all shareholders
+	Parts       []party.ID // participants of this session (signers for sign kinds)
+	Msg         []byte
+	Mat         *Material                        // input material (refresh / sign kinds)
+	Pre         map[party.ID]*ecdsa.PreSignature // presign-online
+	Y           ref.Pt                           // expected group key (refresh / sign kinds)
+	HasY        bool
+	SID         []byte
+	Name        string
+	Shapes      []ToyShape // KToy: what rounds 2.. expect
+	ToyNoDigest bool       // KToy: the last round does not compare view digests
 }
 
 func (s *Scenario) String() string {
@@ -74,7 +75,7 @@ func (s *Scenario) Mk() map[party.ID]Mk {
 		}
 		return out
 	case KToy:
-		return ToyMk(s.Parts, s.Shapes, s.SID)
+		return ToyMk(s.Parts, s.Shapes, s.SID, !s.ToyNoDigest)
 	case KKeygen:
 		return KeygenMk(s.Proto, s.Parts, s.T, s.SID)
 	// every instance works on its own deep copy of the input material
